@@ -103,6 +103,13 @@ CORPUS = [
     # slow callback: the sleep must be computed from the clock after the pass
     ["ecu.new", "cbdef 0 0 0 T:300000", "cbdef 0 1 1", "timer.add 0 600000 1 0", "timer.add 0 100000 0 0", "ecu.tick 0", "ecu.tick 0",
      "ecu.tick 0", "adv 100000", "ecu.tick 0", "ecu.dump 0"],
+    # a callback removes ANOTHER timer that is due in the same pass and registers a new one (list length unchanged)
+    ["ecu.new", "cbdef 0 0 1 R:1 A:1000:3:0", "cbdef 0 1 1", "cbdef 0 3 1", "timer.add 0 1000 0 0", "timer.add 0 1000 1 0", "adv 1000",
+     "ecu.tick 0", "ecu.dump 0", "adv 1000", "ecu.tick 0", "ecu.dump 0"],
+    ["ecu.new", "cbdef 0 2 1 R:1 A:5000:4:1", "cbdef 0 1 0", "cbdef 0 4 0", "timer.add 0 5000 2 0", "timer.add 0 5000 1 0", "timer.add 0 5000 1 1",
+     "adv 5000", "ecu.tick 0", "ecu.dump 0", "adv 5000", "ecu.tick 0", "ecu.dump 0"],
+    # bound-method callback (odd index) removed again: nothing may fire afterwards
+    ["ecu.new", "cbdef 0 1 1", "timer.add 0 1000 1 0", "timer.remove 0 1", "ecu.dump 0", "adv 1000", "ecu.tick 0", "ecu.dump 0"],
     # overrun by more than one period: catch-up stays on the grid
     ["ecu.new", "cbdef 0 1 1", "timer.add 0 100000 1 0", "adv 351000", "ecu.tick 0", "ecu.dump 0", "adv 49000", "ecu.tick 0", "ecu.dump 0"],
 ]
@@ -181,9 +188,26 @@ def oracle_run(rng, repo, nops, eps_max):
             r = rng.random()
             beh[k]['ops'].append(('A', rng.choice(GRID), rng.randrange(K), rng.randrange(2)) if r < 0.5 else
                                  (('R', rng.randrange(K)) if r < 0.75 else ('T', rng.choice([100, 5000, 120000]))))
+    if rng.random() < 0.25:
+        # one callback removes another timer and registers a (harmless) new one in the same call
+        k, other = rng.sample(range(K), 2)
+        quiet = [x for x in range(K) if not beh[x]['ops'] and x != k]
+        if quiet:
+            beh[k]['ops'] = [('R', other), ('A', rng.choice(GRID), rng.choice(quiet), rng.randrange(2))]
     hist = [dict(behaviours={k: dict(ret=v['ret'], ops=v['ops']) for k, v in beh.items()})]
     state = dict(pass_now=None, delivered=[], calls=0)
-    fn, sfn = {}, {}
+    raw, sraw = {}, {}
+
+    class _Fresh:
+        """fn[k] / sfn[k]: odd callbacks are bound methods — a NEW (equal) object on every use, as `obj.method` is"""
+
+        def __init__(self, d):
+            self.d = d
+
+        def __getitem__(self, k):
+            h = self.d[k]
+            return h.call if isinstance(h, pyexec._Holder) else h
+    fn, sfn = _Fresh(raw), _Fresh(sraw)
 
     def run_ops(k):
         for op in beh[k]['ops']:
@@ -202,11 +226,11 @@ def oracle_run(rng, repo, nops, eps_max):
             state['calls'] += 1
             run_ops(k)
             return beh[k]['ret']
-        fn[k] = f
+        raw[k] = f if k % 2 == 0 else pyexec._Holder(f)
 
         def g(prio, pgn, sa, ts, data, k=k):
             state['delivered'].append(k)
-        sfn[k] = g
+        sraw[k] = g if k % 2 == 0 else pyexec._Holder(g)
     # schedule of application operations
     t_ops = sorted(rng.choice([0, rng.randrange(0, 2_000_000)]) for _ in range(nops))
     wake_at = w.now          # the thread starts a pass at once
